@@ -149,6 +149,18 @@ def _run_lattice(ctx, case, st, rng):
   sizes, units = cfg["sizes"], cfg["units"]
   n = int(np.prod(sizes))
   kw = genl.constraint_kwargs(cfg)
+  sp = case["seed"] % 3
+  if sp == 1:
+    # documented spellings: 'increasing' / 'none', 'positive' / 'negative' (also mixed with the integer forms)
+    kw["monotonicities"] = ["increasing" if m else (0 if i % 2 else "none") for i, m in enumerate(kw["monotonicities"])]
+    for k_ in ("edgeworth_trusts", "trapezoid_trusts"):
+      if kw.get(k_):
+        kw[k_] = [(a, b, "positive" if d > 0 else "negative") for a, b, d in kw[k_]]
+    ctx.cls("lattice:string-spellings")
+  elif sp == 2:
+    kw["monotonicities"] = tuple(kw["monotonicities"])
+    kw["lattice_sizes"] = tuple(kw["lattice_sizes"])
+    ctx.cls("lattice:tuple-spellings")
   layer = tfl.layers.Lattice(units=units, **kw)
   layer.build((None, len(sizes)) if units == 1 else (None, units, len(sizes)))
   G, h, tags = _polyhedron(cfg)
@@ -197,6 +209,13 @@ def _run_lattice(ctx, case, st, rng):
 def _run_rtl(ctx, case, st, rng):
   tf, tfl = st["tf"], st["tfl"]
   eps = case["eps"]
+  tiny = case["seed"] % 3 == 0
+  if tiny:
+    # "all eps > 0": an eps far below the sub-layers' default (1e-6) with a violation between the two; the amounts are powers
+    # of two that float32 kernels in (0, 1] carry exactly enough (realised 4.8e-7 +- 6e-8 = 200 x eps)
+    eps = 2e-9
+    ctx.cls("rtl:eps=2e-9")
+  amt = 100 * eps if not tiny else 2.0 ** -21
   n_inc, n_unc = int(rng.randint(1, 4)), int(rng.randint(0, 3))
   rank = 2
   nlat = int(np.ceil((n_inc + n_unc) / rank)) + int(rng.randint(0, 2))
@@ -230,14 +249,14 @@ def _run_rtl(ctx, case, st, rng):
         idx = [int(rng.randint(L)) for _ in range(rank)]
         idx[d] = int(rng.randint(L - 1))
         hi = list(idx); hi[d] += 1
-        K[tuple(hi) + (u,)] = K[tuple(idx) + (u,)] - 100 * eps
+        K[tuple(hi) + (u,)] = K[tuple(idx) + (u,)] - amt
         lay.kernel.assign(K.reshape(K0.shape).astype(np.float32))
         _expect(ctx, "assert_constraints/rejects-injected-violation", verdict(layer, eps), "reject",
                 "RTL: monotonicity broken in sub-lattice %s unit %d dim %d" % (name, u, d))
         keys.append((name, u, d))
     lay.kernel.assign(K0)
     K = K0.copy()
-    K[int(rng.randint(K.shape[0])), int(rng.randint(K.shape[1]))] = 1.0 + 100 * eps
+    K[int(rng.randint(K.shape[0])), int(rng.randint(K.shape[1]))] = 1.0 + amt
     lay.kernel.assign(K)
     _expect(ctx, "assert_constraints/rejects-injected-violation", verdict(layer, eps), "reject", "RTL: upper bound broken in sub-lattice %s" % name)
     lay.kernel.assign(K0)
